@@ -156,6 +156,12 @@ def run_verus(repo, template, workdir, canary="dup", inplace=(), rlimit=None, ex
             alt = [sp for sp in sec if own(sp)]
             if alt:
                 pl = alt[0]["line_start"]
+        if pl is None:
+            # e.g. a panic inside a std macro (`todo!()`, `assert!`): every span is in core; the rendered diagnostic still
+            # shows the expansion site in our file ("in this macro invocation")
+            mm = re.search(re.escape(base) + r":(\d+):", d.get("rendered", ""))
+            if mm:
+                pl = int(mm.group(1))
         f, tag = gen.locate(pl) if pl else (None, "template")
         ent = {
             "message": msg,
@@ -163,7 +169,8 @@ def run_verus(repo, template, workdir, canary="dup", inplace=(), rlimit=None, ex
             "fn": f.name if f else None,
             "canary": bool(f and f.canary),
             "tag": tag,
-            "text": (prim[0]["text"][0]["text"].strip() if prim and prim[0].get("text") else ""),
+            "text": ((prim[0]["text"][0]["text"].strip() if prim and own(prim[0]) and prim[0].get("text") else "")
+                     or (text.split("\n")[pl - 1].strip() if pl and 0 < pl <= text.count("\n") + 1 else "")),
             "secondary": [],
             "rendered": d.get("rendered", "")[:1500],
         }
